@@ -452,6 +452,8 @@ type aSnapKey struct {
 	Waiters  []aSnapWait
 	Data     []byte
 	Slow     bool
+	// Foreign: a holder or queued request whose command names another key than the manager it is recorded in ("" if none)
+	Foreign string
 }
 
 func aSnapManager(db int, m *LockManager) *aSnapKey {
@@ -459,6 +461,9 @@ func aSnapManager(db int, m *LockManager) *aSnapKey {
 	add := func(l *Lock) {
 		if l == nil || l.locked == 0 || l.command == nil {
 			return
+		}
+		if l.command.LockKey != m.lockKey && k.Foreign == "" {
+			k.Foreign = fmt.Sprintf("holder LockId %x (request #%d) was sent for key %x", l.command.LockId[:3], aReqIdx(l.command.RequestId), l.command.LockKey)
 		}
 		k.Holders = append(k.Holders, aSnapHold{l.command.LockId, l.locked, l.command.Count, l.command.Rcount, l.command.TimeoutFlag, l.command.ExpriedFlag,
 			l.command.Expried, l.expriedTime, l.startTime, aReqIdx(l.command.RequestId), l.ackCount, l.isAof})
@@ -478,6 +483,9 @@ func aSnapManager(db int, m *LockManager) *aSnapKey {
 			for _, l := range n {
 				if l == nil || l.timeouted || l.command == nil || l.locked > 0 {
 					continue
+				}
+				if l.command.LockKey != m.lockKey && k.Foreign == "" {
+					k.Foreign = fmt.Sprintf("queued LockId %x (request #%d) was sent for key %x", l.command.LockId[:3], aReqIdx(l.command.RequestId), l.command.LockKey)
 				}
 				k.Waiters = append(k.Waiters, aSnapWait{l.command.LockId, aReqIdx(l.command.RequestId), l.timeoutTime, qLockPrio(l)})
 			}
